@@ -114,10 +114,9 @@ theorem wfIri_ne {k : Str} (h : isWellFormedIRI k = true) : k ≠ [] := by
 
 /-! ### decodeValueNode -/
 
-theorem decodeStringValue_wf (cfg : Cfg) (g s : Option T) (p dt0 lex : Str) (atLang atDir : Option Exp) (n : Nat)
+theorem taggedString_wf (cfg : Cfg) (g s : Option T) (p lex : Str) (lang? dir? : Option Str) (n : Nat)
     (hdir : cfg.dir ≠ .other) (hs : wfSubject s = true) (hp : p ≠ []) (hg : wfGraph g = true)
-    (hdt : dt0 ≠ rdfLangString ∧ dt0 ≠ rdfDirLangString) :
-    AllWf (decodeStringValue cfg g s p dt0 lex atLang atDir n) := by
+    (hl : langBad lang? = false) : AllWf (taggedString cfg g s p lex lang? dir? n) := by
   have one : ∀ (o : T), wfObject (some o) = true → ∀ m, AllWf (.ok [⟨s, p, some o, g⟩] m) := by
     intro o ho m
     exact allWf_ok (listWf_cons (wfrq_mk hs hp ho hg) listWf_nil)
@@ -130,55 +129,432 @@ theorem decodeStringValue_wf (cfg : Cfg) (g s : Option T) (p dt0 lex : Str) (atL
     have : (if rdfLangString = [] then xsdString else rdfLangString) = rdfLangString := by decide
     rw [this]
     exact one _ (wfObject_lang lex l hl) m
+  have hnode : wfSubject (some (Term.bnode (BN.fresh n) : T)) = true := rfl
+  have three : ∀ dir : Str, ListWf [(⟨s, p, some (Term.bnode (BN.fresh n)), g⟩ : RQ),
+      ⟨some (Term.bnode (BN.fresh n)), rdfValue, some (lit lex xsdString none), g⟩,
+      ⟨some (Term.bnode (BN.fresh n)), rdfDirection, some (lit dir xsdString none), g⟩] := fun dir =>
+    listWf_cons (wfrq_mk hs hp rfl hg) (listWf_cons (wfrq_mk hnode preds_ne.2.1 (wfObject_plain _ _ xsdString_ne) hg)
+      (listWf_cons (wfrq_mk hnode preds_ne.2.2.1 (wfObject_plain _ _ xsdString_ne) hg) listWf_nil))
+  cases lang? with
+  | none =>
+    cases dir? with
+    | none => simp only [taggedString, Option.isSome_none, Bool.false_eq_true, if_false]; exact fin [] (by decide) n
+    | some dir =>
+      cases hc : cfg.dir with
+      | none => simp only [taggedString, hc, Option.isSome_none, Bool.false_eq_true, if_false]; exact fin [] (by decide) n
+      | i18n => simp only [taggedString, hc]; exact fin _ ⟨(i18n_ne _).2.1, (i18n_ne _).2.2⟩ n
+      | compound =>
+        simp only [taggedString, hc, Option.isSome_none, Bool.false_eq_true, if_false, List.append_nil]
+        exact allWf_ok (three dir)
+      | other => exact absurd hc hdir
+  | some l =>
+    have hl' : l ≠ [] := by
+      apply wfLang_ne
+      simpa [langBad] using hl
+    cases dir? with
+    | none => simp only [taggedString, Option.isSome_some, if_true, Option.getD_some]; exact finLang l hl' n
+    | some dir =>
+      cases hc : cfg.dir with
+      | none => simp only [taggedString, hc, Option.isSome_some, if_true, Option.getD_some]; exact finLang l hl' n
+      | i18n => simp only [taggedString, hc]; exact fin _ ⟨(i18n_ne _).2.1, (i18n_ne _).2.2⟩ n
+      | compound =>
+        simp only [taggedString, hc, Option.isSome_some, if_true, Option.getD_some]
+        exact allWf_ok (listWf_append (three dir)
+          (listWf_cons (wfrq_mk hnode preds_ne.2.2.2.1 (wfObject_plain _ _ xsdString_ne) hg) listWf_nil))
+      | other => exact absurd hc hdir
+
+theorem decodeStringValue_wf (cfg : Cfg) (g s : Option T) (p dt0 lex : Str) (atLang atDir : Option Exp) (n : Nat)
+    (hdir : cfg.dir ≠ .other) (hs : wfSubject s = true) (hp : p ≠ []) (hg : wfGraph g = true)
+    (hdt : dt0 ≠ rdfLangString ∧ dt0 ≠ rdfDirLangString) :
+    AllWf (decodeStringValue cfg g s p dt0 lex atLang atDir n) := by
+  have fin : AllWf (.ok [⟨s, p, some (lit lex (if dt0 = [] then xsdString else dt0) none), g⟩] n) :=
+    allWf_ok (listWf_cons (wfrq_mk hs hp (wfObject_finish lex dt0 hdt) hg) listWf_nil)
   unfold decodeStringValue
   simp only []
   split
-  · exact fin dt0 hdt n
+  · exact fin
   · split
     · exact allWf_err listWf_nil
-    · rename_i lang? hlang
-      split
+    · split
       · exact allWf_ok listWf_nil
-      · rename_i hwfl
+      · rename_i hlb
         split
         · exact allWf_err listWf_nil
-        · rename_i dir? hdirR
-          split
+        · split
           · exact allWf_ok listWf_nil
           · split
-            · exact fin dt0 hdt n
-            · -- no explicit datatype
-              have hl : ∀ l, lang? = some l → l ≠ [] := by
-                intro l hl; subst hl
-                simp only [Bool.not_eq_true, Bool.not_eq_eq_eq_not, Bool.not_false] at hwfl
-                exact wfLang_ne (by simpa using hwfl)
-              cases lang? with
-              | none =>
-                simp only [Option.isSome_none, Bool.false_eq_true, if_false, Option.getD_none]
-                split
-                · split
-                  · exact fin [] (by decide) n
-                  · exact fin _ ⟨(i18n_ne _).2.1, (i18n_ne _).2.2⟩ n
-                  · refine allWf_ok ?_
-                    simp only [List.append_nil]
-                    have hnode : wfSubject (some (Term.bnode (BN.fresh n) : T)) = true := rfl
-                    refine listWf_cons (wfrq_mk hs hp rfl hg) (listWf_cons (wfrq_mk hnode preds_ne.2.1 (wfObject_plain _ _ xsdString_ne) hg)
-                      (listWf_cons (wfrq_mk hnode preds_ne.2.2.1 (wfObject_plain _ _ xsdString_ne) hg) listWf_nil))
-                  · rename_i ho; exact absurd ho hdir
-                · exact fin [] (by decide) n
-              | some l =>
-                have hl' := hl l rfl
-                simp only [Option.isSome_some, if_true, Option.getD_some]
-                split
-                · split
-                  · exact finLang l hl' n
-                  · exact fin _ ⟨(i18n_ne _).2.1, (i18n_ne _).2.2⟩ n
-                  · refine allWf_ok ?_
-                    have hnode : wfSubject (some (Term.bnode (BN.fresh n) : T)) = true := rfl
-                    refine listWf_append (listWf_cons (wfrq_mk hs hp rfl hg) (listWf_cons (wfrq_mk hnode preds_ne.2.1 (wfObject_plain _ _ xsdString_ne) hg)
-                      (listWf_cons (wfrq_mk hnode preds_ne.2.2.1 (wfObject_plain _ _ xsdString_ne) hg) listWf_nil)))
-                      (listWf_cons (wfrq_mk hnode preds_ne.2.2.2.1 (wfObject_plain _ _ xsdString_ne) hg) listWf_nil)
-                  · rename_i ho; exact absurd ho hdir
-                · exact finLang l hl' n
+            · first
+              | exact fin
+              | (rename_i h0; exact allWf_ok (listWf_cons (wfrq_mk hs hp (wfObject_plain _ _ ⟨h0, hdt.1, hdt.2⟩) hg) listWf_nil))
+            · exact taggedString_wf cfg g s p lex _ _ n hdir hs hp hg (by simpa using hlb)
+
+theorem numberLiteral_dt (dt0 : Str) (x : Num) (hdt : dt0 ≠ rdfLangString ∧ dt0 ≠ rdfDirLangString) :
+    (numberLiteral dt0 x).1 ≠ rdfLangString ∧ (numberLiteral dt0 x).1 ≠ rdfDirLangString := by
+  have h : (numberLiteral dt0 x).1 = dt0 ∨ (numberLiteral dt0 x).1 = xsdDouble ∨ (numberLiteral dt0 x).1 = xsdInteger := by
+    unfold numberLiteral
+    simp only []
+    split <;> (split <;> (try split) <;> simp)
+  rcases h with h | h | h <;> rw [h]
+  · exact hdt
+  · exact ⟨xsdDouble_ne.2.1, xsdDouble_ne.2.2⟩
+  · exact ⟨xsdInteger_ne.2.1, xsdInteger_ne.2.2⟩
+
+theorem decodeValuePrim_wf (cfg : Cfg) (g s : Option T) (p dt0 : Str) (atLang atDir : Option Exp) (v : PVal) (jt : JText) (n : Nat)
+    (hdir : cfg.dir ≠ .other) (hs : wfSubject s = true) (hp : p ≠ []) (hg : wfGraph g = true)
+    (hdt : dt0 ≠ rdfLangString ∧ dt0 ≠ rdfDirLangString) :
+    AllWf (decodeValuePrim cfg g s p dt0 atLang atDir v jt n) := by
+  have one : ∀ (o : T), wfObject (some o) = true → AllWf (.ok [⟨s, p, some o, g⟩] n) := by
+    intro o ho
+    exact allWf_ok (listWf_cons (wfrq_mk hs hp ho hg) listWf_nil)
+  unfold decodeValuePrim
+  simp only []
+  split
+  · split
+    · exact allWf_panic
+    · exact allWf_panic
+    · exact allWf_err listWf_nil
+    · exact allWf_err listWf_nil
+    · exact one _ (wfObject_plain _ _ rdfJSON_ne)
+  · split
+    · exact decodeStringValue_wf cfg g s p dt0 _ atLang atDir n hdir hs hp hg hdt
+    · -- number
+      rename_i x
+      exact one _ (wfObject_finish _ _ (numberLiteral_dt dt0 x hdt))
+    · apply one
+      apply wfObject_finish
+      split
+      · exact ⟨xsdBoolean_ne.2.1, xsdBoolean_ne.2.2⟩
+      · exact hdt
+    · exact allWf_panic
+    · exact allWf_err listWf_nil
+    · exact allWf_err listWf_nil
+    · exact allWf_err listWf_nil
+
+theorem decodeValueNode_wf (cfg : Cfg) (g s : Option T) (p : Str) (ms : List (Str × Exp)) (n : Nat)
+    (hdir : cfg.dir ≠ .other) (hs : wfSubject s = true) (hp : p ≠ []) (hg : wfGraph g = true) :
+    AllWf (decodeValueNode cfg g s p ms n) := by
+  unfold decodeValueNode
+  simp only []
+  split
+  · exact allWf_err listWf_nil
+  · split
+    · exact allWf_ok listWf_nil
+    · rename_i hdt
+      simp only [Bool.or_eq_true, decide_eq_true_eq, not_or] at hdt
+      split
+      · exact decodeValuePrim_wf cfg g s p _ _ _ _ _ n hdir hs hp hg hdt
+      · exact allWf_err listWf_nil
+      · exact allWf_err listWf_nil
+
+/-! ### node objects -/
+
+theorem typeQuadsPartial_wf (g : Option T) (s : T) (hs : wfSubject (some s) = true) (hg : wfGraph g = true) :
+    ∀ tvs : List Exp, ListWf (typeQuadsPartial g s tvs).1
+  | [] => by simp [typeQuadsPartial]; exact listWf_nil
+  | x :: rest => by
+    have ih := typeQuadsPartial_wf g s hs hg rest
+    cases x with
+    | prim v jt =>
+      cases v with
+      | null => simpa [typeQuadsPartial] using ih
+      | str t =>
+        simp only [typeQuadsPartial]
+        split
+        · exact listWf_cons (wfrq_mk hs preds_ne.1 rfl hg) ih
+        · split
+          · exact ih
+          · exact listWf_cons (wfrq_mk hs preds_ne.1 rfl hg) ih
+      | nil => simp [typeQuadsPartial]; exact listWf_nil
+      | num _ => simp [typeQuadsPartial]; exact listWf_nil
+      | bool _ => simp [typeQuadsPartial]; exact listWf_nil
+      | object => simp [typeQuadsPartial]; exact listWf_nil
+      | array => simp [typeQuadsPartial]; exact listWf_nil
+    | nil => simp [typeQuadsPartial]; exact listWf_nil
+    | arr _ => simp [typeQuadsPartial]; exact listWf_nil
+    | obj _ => simp [typeQuadsPartial]; exact listWf_nil
+
+theorem typeStage_wf (g : Option T) (s : T) (ms : List (Str × Exp)) (n : Nat) (hs : wfSubject (some s) = true)
+    (hg : wfGraph g = true) : AllWf (typeStage g s ms n) := by
+  unfold typeStage
+  split
+  · exact allWf_ok listWf_nil
+  · rename_i tvs _
+    have := typeQuadsPartial_wf g s hs hg tvs
+    split
+    · rename_i qs heq; rw [heq] at this; exact allWf_ok this
+    · rename_i qs e heq; rw [heq] at this; exact allWf_err this
+  · exact allWf_err listWf_nil
+
+theorem selfSubject_wf {ms : List (Str × Exp)} {n n1 : Nat} {self : T}
+    (h : selfSubject ms n = .ok (some (self, n1))) : wfSubject (some self) = true := by
+  unfold selfSubject at h
+  split at h
+  · simp at h
+  · split at h
+    · simp only [Except.ok.injEq, Option.some.injEq] at h
+      unfold stringBlankNode at h
+      split at h <;> (cases h; rfl)
+    · split at h
+      · simp at h
+      · simp only [Except.ok.injEq, Option.some.injEq, Prod.mk.injEq] at h
+        obtain ⟨h1, _⟩ := h; subst h1; rfl
+  · simp at h
+  · simp at h
+  · simp only [Except.ok.injEq, Option.some.injEq, Prod.mk.injEq] at h
+    obtain ⟨h1, _⟩ := h; subst h1; rfl
+
+/-- the invariant on evaluation contexts, as a proposition -/
+structure CtxOK (c : ECtx) : Prop where
+  graph : wfGraph c.graph = true
+  prop : ∀ p, c.prop = some p → wfSubject c.subj = true ∧ p ≠ []
+
+theorem ctxOK_of_ok {c : ECtx} (h : ECtx.ok c = true) : CtxOK c := by
+  unfold ECtx.ok at h
+  simp only [Bool.and_eq_true] at h
+  refine ⟨h.2, ?_⟩
+  intro p hp
+  have h1 := h.1.1
+  rw [hp] at h1
+  simpa using h1
+
+theorem keyProp_ne {k p : Str} (h : keyProp k = some (some p)) : p ≠ [] := by
+  unfold keyProp at h
+  split at h
+  · simp at h
+  · split at h
+    · simp at h
+    · split at h
+      · simp at h
+      · rename_i hw
+        simp only [Option.some.injEq] at h
+        subst h
+        exact wfIri_ne (by simpa using hw)
+
+/-- the context of the members of a node with subject `self` under property `prop` -/
+theorem ctxOK_member {c : ECtx} {k : Str} {prop : Option Str} {r : Bool} (hc : CtxOK c) (hs : wfSubject c.subj = true)
+    (hk : keyProp k = some prop) : CtxOK { c with prop := prop, rev := r } := by
+  refine ⟨hc.graph, ?_⟩
+  intro p hp
+  simp only at hp
+  subst hp
+  exact ⟨hs, keyProp_ne hk⟩
+
+theorem ctxOK_list {c : ECtx} (hc : CtxOK c) (cell : T) (hcell : wfSubject (some cell) = true) :
+    CtxOK { c with subj := some cell, prop := some rdfFirst } := by
+  refine ⟨hc.graph, ?_⟩
+  intro p hp
+  simp only [Option.some.injEq] at hp
+  subst hp
+  exact ⟨hcell, preds_ne.2.2.2.2.1⟩
+
+theorem valueProp_some {c : ECtx} {ms : List (Str × Exp)} {p : Str}
+    (h : (match c.prop with
+          | some p => if hasKey kValue ms then some p else none
+          | none => none) = some p) : c.prop = some p := by
+  cases hp : c.prop with
+  | none => rw [hp] at h; simp at h
+  | some p' =>
+    rw [hp] at h
+    simp only at h
+    split at h
+    · exact h
+    · simp at h
+
+theorem bnode_wf (b : B) : wfSubject (some (Term.bnode b : T)) = true := rfl
+
+mutual
+theorem decodeElement_wf (cfg : Cfg) (hdir : cfg.dir ≠ .other) (c : ECtx) (hc : CtxOK c) :
+    ∀ (e : Exp) (n : Nat), AllWf (decodeElement cfg c e n)
+  | .nil, n => by rw [decodeElement]; exact allWf_ok listWf_nil
+  | .arr xs, n => by rw [decodeElement]; exact decodeItems_wf cfg hdir c hc xs n
+  | .prim _ _, n => by rw [decodeElement]; exact allWf_err listWf_nil
+  | .obj ms, n => by
+    rw [decodeElement]
+    split
+    · rename_i p hp
+      have hcp := valueProp_some hp
+      exact decodeValueNode_wf cfg _ _ p ms n hdir (hc.prop p hcp).1 (hc.prop p hcp).2 hc.graph
+    · split
+      · exact findList_wf cfg hdir c hc ms n
+      · split
+        · exact allWf_err listWf_nil
+        · exact allWf_ok listWf_nil
+        · rename_i self n1 hself
+          have hs := selfSubject_wf hself
+          have hc1 : ∀ r, CtxOK { graph := c.graph, subj := some self, prop := c.prop, rev := r } := fun r =>
+            ⟨hc.graph, fun p hp => ⟨hs, (hc.prop p hp).2⟩⟩
+          apply allWf_pre
+          · -- the link statement
+            cases hp : c.prop with
+            | none => exact listWf_nil
+            | some p =>
+              have := hc.prop p hp
+              simp only []
+              split
+              · exact listWf_cons (wfrq_mk hs this.2 (wfSubject_object this.1) hc.graph) listWf_nil
+              · exact listWf_cons (wfrq_mk this.1 this.2 (wfSubject_object hs) hc.graph) listWf_nil
+          apply allWf_andThen (findReverse_wf cfg hdir _ (hc1 _) hs ms _)
+          intro n2
+          apply allWf_andThen (typeStage_wf _ _ _ _ hs hc.graph)
+          intro n3
+          apply allWf_andThen (allWf_ite (findKeyArr_wf cfg hdir _ ⟨wfSubject_graph hs, fun p hp => by simp at hp⟩ _ ms _) (allWf_ok listWf_nil))
+          intro n4
+          refine allWf_andThen (findKeyArr_wf cfg hdir _ ?_ _ ms _) ?_
+          · exact ⟨hc.graph, fun p hp => by cases hp⟩
+          intro n5
+          exact members_wf cfg hdir _ (hc1 _) hs ms _
+
+theorem decodeItems_wf (cfg : Cfg) (hdir : cfg.dir ≠ .other) (c : ECtx) (hc : CtxOK c) :
+    ∀ (xs : List Exp) (n : Nat), AllWf (decodeItems cfg c xs n)
+  | [], n => by rw [decodeItems]; exact allWf_ok listWf_nil
+  | x :: xs, n => by
+    rw [decodeItems]
+    exact allWf_andThen (decodeElement_wf cfg hdir c hc x n) (fun n1 => decodeItems_wf cfg hdir c hc xs n1)
+
+theorem findList_wf (cfg : Cfg) (hdir : cfg.dir ≠ .other) (c : ECtx) (hc : CtxOK c) :
+    ∀ (ms : List (Str × Exp)) (n : Nat), AllWf (findList cfg c ms n)
+  | [], n => by rw [findList]; exact allWf_ok listWf_nil
+  | (k, v) :: rest, n => by
+    have ih := findList_wf cfg hdir c hc rest n
+    by_cases hk : k = kList
+    · cases v with
+      | arr xs =>
+        cases xs with
+        | nil =>
+          rw [findList, if_pos hk]
+          cases hp : c.prop with
+          | none => exact allWf_ok listWf_nil
+          | some p =>
+            have := hc.prop p hp
+            exact allWf_ok (listWf_cons (wfrq_mk this.1 this.2 rfl hc.graph) listWf_nil)
+        | cons x xs =>
+          rw [findList, if_pos hk]
+          apply allWf_pre
+          · cases hp : c.prop with
+            | none => exact listWf_nil
+            | some p =>
+              have := hc.prop p hp
+              exact listWf_cons (wfrq_mk this.1 this.2 rfl hc.graph) listWf_nil
+          · exact listCells_wf cfg hdir c hc _ (bnode_wf _) true (x :: xs) _
+      | nil => rw [findList, if_pos hk] <;> first | exact allWf_err listWf_nil | simp
+      | obj _ => rw [findList, if_pos hk] <;> first | exact allWf_err listWf_nil | simp
+      | prim _ _ => rw [findList, if_pos hk] <;> first | exact allWf_err listWf_nil | simp
+    · cases v with
+      | arr xs =>
+        cases xs with
+        | nil => rw [findList, if_neg hk]; exact ih
+        | cons x xs => rw [findList, if_neg hk]; exact ih
+      | nil => rw [findList, if_neg hk] <;> first | exact ih | simp
+      | obj _ => rw [findList, if_neg hk] <;> first | exact ih | simp
+      | prim _ _ => rw [findList, if_neg hk] <;> first | exact ih | simp
+
+theorem listCells_wf (cfg : Cfg) (hdir : cfg.dir ≠ .other) (c : ECtx) (hc : CtxOK c) (cell : T) (hcell : wfSubject (some cell) = true)
+    (first : Bool) : ∀ (xs : List Exp) (n : Nat), AllWf (JLD.listCells cfg c cell first xs n)
+  | [], n => by
+    rw [JLD.listCells]
+    split
+    · exact allWf_ok (listWf_cons (wfrq_mk hcell preds_ne.2.2.2.2.2 rfl hc.graph) listWf_nil)
+    · exact allWf_ok listWf_nil
+  | x :: xs, n => by
+    rw [JLD.listCells]
+    split
+    · apply allWf_pre (listWf_cons (wfrq_mk hcell preds_ne.2.2.2.2.2 rfl hc.graph) listWf_nil)
+      exact allWf_andThen (allWf_wrapList (decodeElement_wf cfg hdir _ (ctxOK_list hc _ (bnode_wf _)) x _))
+        (fun n1 => listCells_wf cfg hdir c hc _ (bnode_wf _) false xs n1)
+    · exact allWf_andThen (allWf_wrapList (decodeElement_wf cfg hdir _ (ctxOK_list hc _ hcell) x _))
+        (fun n1 => listCells_wf cfg hdir c hc _ hcell false xs n1)
+
+theorem findKeyArr_wf (cfg : Cfg) (hdir : cfg.dir ≠ .other) (c : ECtx) (hc : CtxOK c) (key : Str) :
+    ∀ (ms : List (Str × Exp)) (n : Nat), AllWf (findKeyArr cfg c key ms n)
+  | [], n => by rw [findKeyArr]; exact allWf_ok listWf_nil
+  | (k, v) :: rest, n => by
+    have ih := findKeyArr_wf cfg hdir c hc key rest n
+    by_cases hk : k = key
+    · cases v with
+      | arr xs =>
+        rw [findKeyArr, if_pos hk]
+        exact decodeItems_wf cfg hdir c hc xs n
+      | nil => rw [findKeyArr, if_pos hk] <;> first | exact allWf_err listWf_nil | simp
+      | obj _ => rw [findKeyArr, if_pos hk] <;> first | exact allWf_err listWf_nil | simp
+      | prim _ _ => rw [findKeyArr, if_pos hk] <;> first | exact allWf_err listWf_nil | simp
+    · cases v <;> (rw [findKeyArr, if_neg hk] <;> first | exact ih | simp)
+
+theorem findReverse_wf (cfg : Cfg) (hdir : cfg.dir ≠ .other) (c : ECtx) (hc : CtxOK c) (hs : wfSubject c.subj = true) :
+    ∀ (ms : List (Str × Exp)) (n : Nat), AllWf (findReverse cfg c ms n)
+  | [], n => by rw [findReverse]; exact allWf_ok listWf_nil
+  | (k, v) :: rest, n => by
+    have ih := findReverse_wf cfg hdir c hc hs rest n
+    by_cases hk : k = kReverse
+    · cases v with
+      | obj rms =>
+        rw [findReverse, if_pos hk]
+        exact reverseMembers_wf cfg hdir c hc hs rms n
+      | nil => rw [findReverse, if_pos hk] <;> first | exact allWf_err listWf_nil | simp
+      | arr _ => rw [findReverse, if_pos hk] <;> first | exact allWf_err listWf_nil | simp
+      | prim _ _ => rw [findReverse, if_pos hk] <;> first | exact allWf_err listWf_nil | simp
+    · cases v <;> (rw [findReverse, if_neg hk] <;> first | exact ih | simp)
+
+theorem reverseMembers_wf (cfg : Cfg) (hdir : cfg.dir ≠ .other) (c : ECtx) (hc : CtxOK c) (hs : wfSubject c.subj = true) :
+    ∀ (ms : List (Str × Exp)) (n : Nat), AllWf (reverseMembers cfg c ms n)
+  | [], n => by rw [reverseMembers]; exact allWf_ok listWf_nil
+  | (k, v) :: rest, n => by
+    have ih := fun n1 => reverseMembers_wf cfg hdir c hc hs rest n1
+    cases v with
+    | arr xs =>
+      rw [reverseMembers]
+      split
+      · exact ih n
+      · rename_i prop hk
+        exact allWf_andThen (decodeItems_wf cfg hdir _ (ctxOK_member hc hs hk) xs n) ih
+    | nil =>
+      rw [reverseMembers]
+      · split
+        · exact ih n
+        · exact allWf_andThen (allWf_err listWf_nil) ih
+      all_goals simp
+    | obj _ =>
+      rw [reverseMembers]
+      · split
+        · exact ih n
+        · exact allWf_andThen (allWf_err listWf_nil) ih
+      all_goals simp
+    | prim _ _ =>
+      rw [reverseMembers]
+      · split
+        · exact ih n
+        · exact allWf_andThen (allWf_err listWf_nil) ih
+      all_goals simp
+
+theorem members_wf (cfg : Cfg) (hdir : cfg.dir ≠ .other) (c : ECtx) (hc : CtxOK c) (hs : wfSubject c.subj = true) :
+    ∀ (ms : List (Str × Exp)) (n : Nat), AllWf (members cfg c ms n)
+  | [], n => by rw [members]; exact allWf_ok listWf_nil
+  | (k, v) :: rest, n => by
+    have ih := fun n1 => members_wf cfg hdir c hc hs rest n1
+    cases v with
+    | arr xs =>
+      rw [members]
+      split
+      · exact ih n
+      · rename_i prop hk
+        exact allWf_andThen (decodeItems_wf cfg hdir _ (ctxOK_member (r := c.rev) hc hs hk) xs n) ih
+    | nil =>
+      rw [members]
+      · split
+        · exact ih n
+        · exact allWf_andThen (allWf_err listWf_nil) ih
+      all_goals simp
+    | obj _ =>
+      rw [members]
+      · split
+        · exact ih n
+        · exact allWf_andThen (allWf_err listWf_nil) ih
+      all_goals simp
+    | prim _ _ =>
+      rw [members]
+      · split
+        · exact ih n
+        · exact allWf_andThen (allWf_err listWf_nil) ih
+      all_goals simp
+end
 
 end RdfModel.Proofs.C10D
